@@ -946,6 +946,25 @@ func normNative(v any) any {
 // C12
 
 func c12Oracle(c *oracleCtx) {
+	c.check("typed-native-nil-entries", true, func() string {
+		// nil entries of natively typed slices / maps become the nil kind, like everywhere else
+		var nilO Object
+		var nilL List
+		lo, ll := NewListFrom([]Object{nilO, NewObject()}), NewListFrom([]List{nilL, NewList()})
+		oo, ol := NewObjectFrom(map[string]Object{"n": nilO, "o": NewObject()}), NewObjectFrom(map[string]List{"n": nilL, "l": NewList()})
+		if lo.TypeOf(0) != TypeNil || ll.TypeOf(0) != TypeNil || lo.Get(0) != nil || ll.Get(0) != nil || lo.TypeOf(1) != TypeObject || ll.TypeOf(1) != TypeList {
+			return "a nil entry of a []Object / []List is not stored as the nil kind"
+		}
+		if oo.TypeOf("n") != TypeNil || ol.TypeOf("n") != TypeNil || oo.Get("n") != nil || ol.Get("n") != nil || oo.TypeOf("o") != TypeObject || ol.TypeOf("l") != TypeList {
+			return "a nil entry of a map[string]Object / map[string]List is not stored as the nil kind"
+		}
+		for _, c := range []any{lo, ll, oo, ol, NewList(map[string]Object{"x": nilO}), NewObject("k", []List{nilL})} {
+			if catch(func() { serial(c); cloneOf(c) }) {
+				return "a container built from a typed native with a nil entry cannot be serialised / cloned"
+			}
+		}
+		return ""
+	})
 	c.rule = "values of every supported dynamic type at range boundaries through every insertion entry point; Get type, TypeOf, exactly one typed getter; unsupported types rejected without being stored"
 	type vc struct {
 		id   string
